@@ -9,7 +9,7 @@ Lemmas about the spec functions (independent of the code): F_k is injective on t
 """
 from core import VC
 from nvwp import V, AND, IMP, lit
-from wplib import IdEnvWP, h_std_get, h_array_fill, declare_array, array_name, load, reach_vc, array_len
+from wplib import IdEnvWP, h_std_get, h_array_fill, declare_array, array_name, load, reach_vc, array_len, STD_ARRAY_MEMBERS, STD_NUMERIC_CALLS, iter_hook
 import re
 import astload
 import nvwp
@@ -116,13 +116,13 @@ def h_get_dims0(wp, n, args, callee):
 
 
 CALLS = [(r'^get\|', h_std_get), (r'^product\|', h_product), (r'^get_index\|', h_get_index(False)),
-         (r'^get_index0\|', h_get_index(True)), (r'^get_dims0\|', h_get_dims0)]
-MEMBERS = [(r'^fill\|std::array', h_array_fill)]
+         (r'^get_index0\|', h_get_index(True)), (r'^get_dims0\|', h_get_dims0)] + STD_NUMERIC_CALLS
+MEMBERS = [(r'^fill\|std::array', h_array_fill)] + STD_ARRAY_MEMBERS
 
 
 def mk(name, decl, select, R, post, about, idx_names=None, signed=False, end_inclusive=False):
     docs, fn = load(TU, FLT, decl, select)
-    wp = IdEnvWP(name, calls=CALLS, members=MEMBERS, bindings=nvwp.template_bindings(docs, fn))
+    wp = IdEnvWP(name, calls=CALLS, members=MEMBERS, hooks=[iter_hook], bindings=nvwp.template_bindings(docs, fn))
     wp.end_inclusive = end_inclusive
     keys = wp.bind_params(fn)
     idx = []
@@ -312,6 +312,8 @@ def build(tier):
                         'make_dims / cat_dims (aggregate initialisation of std::array)', 'tensor.h numeric helpers (zero, full, random, min, max, ... : Eigen expressions over vector())'],
         'assumptions': ['tensor invariant: every extent >= 0 and every suffix product of the extents <= 2^62 (precondition, reported)',
                         'template arguments of calls inside templates are read from the source text and evaluated under the instantiation bindings',
+                        'std::accumulate over a std::array range (wplib, used only if the source calls it): [accumulate] semantics with the accumulator of the type of init, the partial result '
+                        'converted back to it at every step (obligation), std::multiplies / std::plus / std::minus as the arithmetic operators in the usual-arithmetic-conversion (or the functor\'s) type',
                         'storage invariant: data() addresses size() elements (owning storage: established by the constructors / resize through Eigen; mapping storages: the caller\'s promise)',
                         'private helpers tvector / ttensor / tmatrix / tslice / treshape receive ptr == data() (true of their only callers, the public wrappers, which are proved to pass data())',
                         'the asserts compiled out under NDEBUG are the preconditions: index tuples inside the index box, slice range 0 <= begin <= end <= dims[0], indexed: every index value in '
@@ -360,6 +362,10 @@ def replay(rp):
     out = {'reproduced': False, 'runs': []}
     if 'tensor_t<' in rp.get('target', ''):
         return replay_tensor(rp, out)
+    if 'resize' in rp.get('target', '') and ('storage' in rp.get('target', '')):
+        return replay_scenarios(out, [['moved_resize']])
+    if rp.get('target', '').startswith('integral<'):
+        return replay_scenarios(out, [['integral_empty']])
     if rp.get('target', '').startswith('storage_'):
         return replay_storage(rp, out)
     if rp.get('target', '').startswith('integral1_get'):
